@@ -243,6 +243,20 @@ func powExponents() []*big.Int {
 		out = append(out, new(big.Int).Lsh(ref.I(1), i))
 	}
 
+	// exponents whose *Montgomery limbs* are a limb pattern (a shortcut keyed on the stored form of the exponent
+	// sees a small number there), the domain constants, and exponents with an all-zero interior word
+	for _, st := range alpha.Strings256(n, 0) {
+		if st.Cmp(n) < 0 {
+			out = append(out, ref.Unmont(ref.Limbs(st), n))
+		}
+	}
+
+	out = append(out, alpha.DomainConstants(n)...)
+
+	for _, l := range [][4]uint64{{5, 0, 7, 0}, {5, 0, 0, 7}, {0, 9, 0, 7}, {^uint64(0), 0, 0, 1}} {
+		out = append(out, ref.FromLimbs(l))
+	}
+
 	return out
 }
 
